@@ -4,7 +4,11 @@ spec -> impl: Bpe.tla is the merge procedure as a state machine (action MergeSte
 lowest-ranked adjacent pair present).  One TLC run model-checks its invariants (Expand(tokens) = input,
 termination, terminal state = pure reference function, the two step granularities agree on well-ordered
 tables) and emits one test vector per (merge table, input).  vh-text merge builds a real
-rten_text::models::Bpe per table (explicit vocabulary and vocabulary derived from the merges), encodes
+rten_text::models::Bpe per table (vocabulary derived from the merges, and an explicit vocabulary whose ids are
+assigned by seeded schemes over the whole u32 id space: byte tokens by value / permuted / offset by 2^8, 2^15, 2^16-1,
+2^16, 2^16+1, 2^17, 2^24, 2^31 or counting down from 2^31-1 and u32::MAX; merged tokens dense, anchored at the same
+values, counting down from the top, sparse random, or (k << 16) | id-of-an-alphabet-byte; ids are logged as
+<<id div 2^16, id mod 2^16>> pairs), encodes
 through Tokenizer::encode and logs ids and their vocabulary strings.  Trace_Bpe recomputes the reference
 result in TLA+ from the logged table/input and judges ids/pieces."""
 import json
@@ -61,7 +65,7 @@ def finish(ctx, trace, res, nvec, bounds, exhaustive):
         if b["sig"].get("class") == "generator_mismatch":
             raise vlib.ToolError("vector carried through the harness differs from the spec's recomputation: %s" % json.dumps(b["rec"])[:400])
     total, distinct, dnt, samples = vlib.scan_cases(
-        trace, ["m", "s", "alpha"], lambda r: len(r["one"]) < len(r["s"]))
+        trace, ["m", "s", "alpha", "idscheme"], lambda r: len(r["one"]) < len(r["s"]))
     ctx.cov["evaluations"] = 2 * total  # explicit + derived vocabulary
     ctx.cov["distinct_nontrivial"] = dnt
     ctx.cov["traces_validated_against_impl"] = total
@@ -83,6 +87,9 @@ def finish(ctx, trace, res, nvec, bounds, exhaustive):
         assumptions=["merge tables hold distinct pairs and are closed (every component is a symbol or the product of an entry), "
                      "as Bpe::new requires for a vocabulary derived from the merge list",
                      "bounds: " + bounds,
+                     "explicit vocabularies use seeded id schemes over the whole u32 range (offsets 2^8..2^31, 2^16 +- 1, counting down from "
+                     "2^31-1 and u32::MAX, sparse random, large ids whose low 16 bits equal another token's id); the reference works on token "
+                     "strings and is independent of the id assignment",
                      "symbols are mapped to ASCII bytes (4 seeded alphabets incl. non-printable bytes); ids are mapped back to "
                      "pieces through Model::get_token_str and rten_text::models::char_to_byte",
                      "where one-occurrence-per-step and all-occurrences-per-step differ (only on tables that are not in training "
